@@ -1,7 +1,7 @@
 import Solvor.Cp.Sem
 import Solvor.Cp.Dpll
 /-! Cp.Encode: mirror of `SATEncoder` (solvor/cp_encoder.py, with the proposed C06 repairs:
-exactly-one for auxiliary variables, `sum_le([])` with a negative target, MTZ loop over the order variable's domain, successor
+exactly-one for auxiliary variables, empty domains unsatisfiable, `sum_le([])` with a negative target, MTZ loop over the order variable's domain, successor
 range clauses, cumulative without the literal cut, general linear `ne_expr`), including the
 boolean numbering, so that the produced clause list can be compared with the captured one as a
 multiset of sorted clauses.  No Mathlib. -/
@@ -245,7 +245,9 @@ def mkVars : List VarDecl → Nat → List EVar × Nat
     let (Vs, next') := mkVars ds (next + V.size)
     (V :: Vs, next')
 
-def encodeVars (Vs : List EVar) : Cnf := Vs.flatMap fun V => exactlyOne V.lits
+/-- `_encode_vars` (repaired: a variable with an empty domain makes the formula unsatisfiable) -/
+def encodeVars (Vs : List EVar) : Cnf :=
+  Vs.flatMap fun V => if V.lits.isEmpty then [[]] else exactlyOne V.lits
 
 def ev (Vs : List EVar) (i : Nat) : EVar := Vs.getD i default
 
